@@ -16,11 +16,19 @@ def main(argv):
             if e[1] and argv[1] in str(e[1]):
                 print(i, e)
         return 0
-    for a in argv:
-        i = int(a)
-        spec = runner.make_spec(S, seed, i, tier, plan[i])
+    if argv[0] == "kind":
+        # kind <samekind|firstuse> <kind> [index-for-seed]
+        jobs = [(10 ** 6 + int(argv[3]) if len(argv) > 3 else 10 ** 6,
+                 (argv[1], argv[2], argv[1] == "firstuse"))]
+    elif argv[0] == "scn":
+        # scn <scenario> <n>
+        jobs = [(2 * 10 ** 6 + k, (argv[1], None, k % 2 == 1)) for k in range(int(argv[2]))]
+    else:
+        jobs = [(int(a), plan[int(a)]) for a in argv]
+    for i, entry in jobs:
+        spec = runner.make_spec(S, seed, i, tier, entry)
         out = runner.execute(S, spec)
-        print(i, plan[i], "harness_error" in out and out["harness_error"])
+        print(i, entry, "harness_error" in out and out["harness_error"])
         if "violations" in out:
             print("  counters", out["counters"], "switches", out["stats"]["switches"],
                   "faults", out["stats"]["faults_fired"], out["stats"]["stack_faults_fired"], "lock_blocks", out["stats"]["lock_blocks"], "probes", out["probes"])
